@@ -34,7 +34,7 @@ import (
 //	T buf.reset = ok
 //	T buf.est <cpseid hex> far=<id:aa:teid|...> qer=<id:qfi|...> pdr=<id:far:qer+qer|...> = <upseid hex|err>
 //	T buf.pkt <upseid hex> <pdr> <action hex> <payload hex|-> n=<count> = dldr=<cpseid/pdr,...|-> q=<pdr/len,...|-> (queues of that session)
-//	T buf.far <upseid hex> <farid> <aa hex|-> <teid|-> <idfirst|aafirst> = <cause> gtpu=<hex,hex,...|-> q=<…>
+//	T buf.far <upseid hex> <farid> <aa hex|-> <teid|-> <idfirst|aafirst> = <cause> gtpu=<hex,hex,...|-> q=<…> k=<far:action:teid,…>   (FARs the data plane holds)
 //	T buf.rmpdr <upseid hex> <pdr> = <cause> q=<…>
 //	T buf.addpdr <upseid hex> <pdr> <far> <qer+qer|-> = <cause> q=<…>
 //	T buf.del <upseid hex> = <cause> gtpu=<…>
@@ -287,6 +287,47 @@ func (e *bufEnv) queues(up uint64) string {
 		}
 	}
 	return "gone"
+}
+
+// kfars: the FARs the simulated data plane holds for a session: "<id>:<apply action word>:<outer header TEID|->,…" (sorted)
+func (e *bufEnv) kfars(up uint64) string {
+	e.d.k.mu.Lock()
+	defer e.d.k.mu.Unlock()
+	var out []string
+	prefix := fmt.Sprintf("far/%x/", up)
+	for key, attrs := range e.d.k.objs {
+		if !strings.HasPrefix(key, prefix) {
+			continue
+		}
+		act, teid := uint64(0), "-"
+		for _, a := range attrs {
+			switch a.typ & 0x3fff {
+			case gtp5gnl.FAR_APPLY_ACTION:
+				act = readUint(a.val)
+			case gtp5gnl.FAR_FORWARDING_PARAMETER:
+				for _, f := range parseAttrs(a.val) {
+					if f.typ&0x3fff == gtp5gnl.FORWARDING_PARAMETER_OUTER_HEADER_CREATION {
+						for _, o := range parseAttrs(f.val) {
+							if o.typ&0x3fff == gtp5gnl.OUTER_HEADER_CREATION_O_TEID {
+								teid = fmt.Sprint(readUint(o.val))
+							}
+						}
+					}
+				}
+			}
+		}
+		out = append(out, fmt.Sprintf("%s:%d:%s", strings.TrimPrefix(key, prefix), act, teid))
+	}
+	if len(out) == 0 {
+		return "-"
+	}
+	sort.Slice(out, func(i, j int) bool {
+		var a, b int
+		fmt.Sscan(strings.SplitN(out[i], ":", 2)[0], &a)
+		fmt.Sscan(strings.SplitN(out[j], ":", 2)[0], &b)
+		return a < b
+	})
+	return strings.Join(out, ",")
 }
 
 func causeOf(m message.Message) string {
@@ -568,7 +609,7 @@ func runBuf(c *ctx) {
 				c.count("far." + ord)
 				rsp := e.rpc(message.NewSessionModificationRequest(0, 0, s.up, e.nextSeq(), 0, e.farIE(true, far, aa, teid, idFirst)), &pend)
 				e.settle()
-				c.emit("T buf.far %x %d %s %s %s = %s gtpu=%s q=%s", s.up, far, aat, tt, ord, causeOf(rsp), e.gtpus(), e.queues(s.up))
+				c.emit("T buf.far %x %d %s %s %s = %s gtpu=%s q=%s k=%s", s.up, far, aat, tt, ord, causeOf(rsp), e.gtpus(), e.queues(s.up), e.kfars(s.up))
 			case x < 81:
 				pdr := uint16(1 + r.intn(4))
 				c.count("rmpdr")
